@@ -221,11 +221,14 @@ Definition handle_packet (s : session) (p : rpacket) : session * hres :=
           | None => (s, HErr EInvalidPacket)
           | Some id =>
               let duplicate := mem_id id (s_srv s) in
-              let '(s1, reason) :=
-                if duplicate then (s, 0)
-                else if MAX_INBOUND_QOS2 <=? glen (s_srv s) then (s, 147)   (* ReceiveMaxExceeded = 0x93 *)
-                else (set_srv s (s_srv s ++ [id]), 0) in
-              queue_ctl_checked s1 (CPubRec id reason) (negb (duplicate || negb (rc_success reason)))
+              let full := MAX_INBOUND_QOS2 <=? glen (s_srv s) in
+              let reason := if duplicate then 0 else if full then 147 else 0 in   (* ReceiveMaxExceeded = 0x93 *)
+              (* the identifier is remembered only once its PUBREC is owed (fix 6ec1ca9) *)
+              let '(s1, hr) := queue_ctl_checked s (CPubRec id reason) (negb (duplicate || negb (rc_success reason))) in
+              (match hr with
+               | HOk _ => if duplicate || full then s1 else set_srv s1 (s_srv s ++ [id])
+               | HErr _ => s1
+               end, hr)
           end
       end
   | RDisconnect _ _ => (s, HErr EDisconnected)
